@@ -129,6 +129,26 @@ CHECKS = {
         "imported from the named module and no longer unresolved, and every other import and toplevel is unchanged.",
    note="Documents are ASCII; comment re-attachment after the edit is counted but not judged (the property compares programs up to comments).",
    technique="TLA+ edit/document model enumerated by TLC; every case replayed on the real server and judged by a TLA+ trace spec"),
+ "C01": dict(
+   level="translation_validation", design="§3.4, §5 C01, §10",
+   text="Semantics.tla is an executable specification of the source language (big-step evaluator over the typed AST of every module incl. std: "
+        "evaluation order, patterns, dynamic dispatch, closures, Vec store, guarded 32-bit arithmetic from Arith.tla); TLC evaluates Run(program) and "
+        "SemTrace.tla accepts the recorded WebAssembly runs (un-optimised and shipped configuration) iff they print the specified lines and end the specified "
+        "way, or the specified run is implementation-defined. Programs: a 35-program feature corpus, the repository's test wrappers, seeded generated programs. "
+        "Rule level: EnumLayout.tla (layout choice sound for every declaration set under both processing orders; every set replayed as a program that builds "
+        "and prints all values to depth 3) and Arith.tla (WasmRefinesSrc).",
+   note="Open known finding loop-opt (two loop shapes whose wrong guard is pinned by the optimiser's unit tests). Trusted: wasm_interp (own WasmGC interpreter; "
+        "loader.js transcribed), the AST dump. Excluded by the specification: overflow, division by zero, toInt on non-numeric text, Vec.capacity, stack/budget "
+        "exhaustion, == on separately allocated structurally equal class values. Non-ASCII text and ints beyond 31 bits in Vec stay out of the corpus.",
+   technique="executable TLA+ semantics evaluated by TLC as reference interpreter / trace acceptor for runs of compiled programs"),
+ "C18": dict(
+   level="model_checking", design="§5 C18, §10",
+   text="Collections.tla models Map, Set and List as mathematical finite maps, sets and sequences with one action per std operation (79) and its canonical "
+        "observation; TLC model-checks its laws over keys {1,2,3} to depth 4/5 and generates operation sequences (all of length <= 2, simulated longer ones); "
+        "those and seeded random sequences (length <= 60, small and wide key ranges) are compiled into samlang programs over the real std sources, run on both "
+        "back ends un-optimised and optimised, and CollTrace.tla replays every operation on the abstract registers and compares every printed result.",
+   note="std sources are read from /repo/std at run time (set.sam supplied as a user module). iter() is not observed (returns unit). Inherits wasm_interp / ts_run.",
+   technique="TLA+ abstract collections model checked by TLC; trace validation of compiled operation sequences against it"),
 }
 
 NOT_YET = "machinery for this property is not built yet in this round (see DESIGN.md §9 build order)"
